@@ -15,7 +15,7 @@ from .common import (Vals, z_leap, z_yd, z_D, z_M, z_md, z_N, I, N_MIN, N_1900, 
 
 MANIFEST_ENTRY = {
     'category': 'proof',
-    'text': 'date.py and the date conversions/arithmetic of the value classes and natives are proved against the closed-form Gregorian day number for every date 0001..9999 and every integer offset (loop invariants, z3); time of day through IEEE doubles is covered by a bounded enumeration on the real code; date - date with times of day is the whole number of days nearest to the exact difference, exactly the difference of the day numbers for equal times of day (over the error bound proved for to_oa_date)',
+    'text': 'date.py and the date conversions/arithmetic of the value classes and natives are proved against the closed-form Gregorian day number for every date 0001..9999 and every integer offset (loop invariants, z3); time of day through IEEE doubles is covered by a bounded enumeration on the real code; date - date with times of day is the whole number of days nearest to the exact difference, exactly the difference of the day numbers for equal times of day (over the error bound proved for to_oa_date); all dates 0001-01-01 .. 9999-12-31',
     'note': 'IEEE doubles idealised (rnd model); datetime.replace trusted; VC generator trusted (canaries on every run)',
     'technique': 'deductive verification: pyvc VCs from the real AST + z3/cvc5; bounded enumeration for float time-of-day',
 }
@@ -27,7 +27,7 @@ TRUSTED = [
     "round(x) returns an integer within 1/2 of x",
 ]
 ASSUMPTIONS = [
-    "dates are in 1900-01-01 .. 9999-12-31 (to_date additionally proved for years 1..1899)",
+    "dates are in 0001-01-01 .. 9999-12-31 (all that the host datetime can hold)",
     "time of day through doubles: proved only up to the rounding model for whole-second times; exact outcomes by bounded enumeration on the real code",
 ]
 EXPLANATION = ("to_oa_date / to_date proved against the closed-form Gregorian day number N(y,m,d) with loop invariants; "
@@ -41,13 +41,21 @@ def sym_datetime(w, it, name, midnight):
     d = new_datetime(w, *(fs + ts))
     d.fresh = False
     it.path.assume(dt_valid(d), check=False)
-    it.path.assume(zi(fs[0]) >= 1900)
+    it.path.assume(zi(fs[0]) >= 1)
     return d
 
 
+def _zmax(a, b):
+    return z3.If(a >= b, a, b)
+
+
 TO_OA_LOOPS = {
-    0: Loop(lambda st: [zi(st["result"]) == 1 + z_D(zi(st.k)), zi(st.k) <= zi(st["year"]), zi(st.k) >= 1900]),
-    1: Loop(lambda st: [zi(st["result"]) == 1 + z_D(zi(st["year"])) + z_M(zi(st["year"]), zi(st.k)),
+    # years from 1900 up to the date's year (empty for dates before 1900) ...
+    0: Loop(lambda st: [zi(st["result"]) == 1 + z_D(zi(st.k)), zi(st.k) <= _zmax(zi(st["year"]), z3.IntVal(1900)), zi(st.k) >= 1900]),
+    # ... years from the date's year up to 1900, subtracted (empty from 1900 on)
+    1: Loop(lambda st: [zi(st["result"]) == 1 + z_D(_zmax(zi(st["year"]), z3.IntVal(1900))) - z_D(zi(st.k)) + z_D(zi(st["year"])),
+                        zi(st.k) >= zi(st["year"]), zi(st.k) <= _zmax(zi(st["year"]), z3.IntVal(1900)), zi(st["year"]) >= 1]),
+    2: Loop(lambda st: [zi(st["result"]) == 1 + z_D(zi(st["year"])) + z_M(zi(st["year"]), zi(st.k)),
                         zi(st.k) <= zi(st["month"]), zi(st.k) >= 0, zi(st["month"]) <= 11]),
 }
 
@@ -179,7 +187,7 @@ def units(w):
         d = a[0]
         if not (isinstance(d, Obj) and d.cls.name == "datetime"):
             it.check("pre:to_oa_date:argument-is-datetime", False, node)
-        it.check("pre:to_oa_date:year>=1900", zi(d.fields["year"]) >= 1900, node)
+        it.check("pre:to_oa_date:year>=1", zi(d.fields["year"]) >= 1, node)
         n = date_N(d)
         if all(isinstance(d.fields[f], int) and d.fields[f] == 0 for f in ("hour", "minute", "second", "microsecond")):
             return SFloat(z3.ToReal(n), intz=n)
@@ -225,7 +233,7 @@ def units(w):
 
     def s_vint(it):
         v = V.int(it, "n")
-        it.assume(z3.And(zi(v.fields["value"]) >= N_1900, zi(v.fields["value"]) <= N_MAX))
+        it.assume(z3.And(zi(v.fields["value"]) >= N_MIN, zi(v.fields["value"]) <= N_MAX))
         return [v], {}, {"n": v}
 
     def p_asdate(it, c, o):
@@ -250,7 +258,7 @@ def units(w):
         def post(it, c, o):
             n = zi(c["b"].fields["value"])
             target = date_N(c["a"]) + sign * n
-            inrange = z3.And(target >= N_1900, target <= N_MAX)
+            inrange = z3.And(target >= N_MIN, target <= N_MAX)
             if o.kind == "raise":
                 it.check("raises:only-when-result-out-of-range", z3.Not(inrange))
                 return
@@ -403,7 +411,7 @@ def replay_arith(op):
         _real()
         interp = importlib.import_module("ckl.interpreter").Interpreter(True, False)
         progs = []
-        for y, mo, d in [(2020, 12, 31), (2019, 12, 31), (1969, 12, 31), (2020, 2, 28), (1970, 1, 1), (2021, 1, 1)]:
+        for y, mo, d in [(2020, 12, 31), (2019, 12, 31), (1969, 12, 31), (2020, 2, 28), (1970, 1, 1), (2021, 1, 1), (1899, 12, 30), (1800, 1, 1), (1600, 2, 29), (1000, 1, 1)]:
             for n in (1, 365, 366, -1, 0, 1461):
                 ds = f"{y:04d}{mo:02d}{d:02d}"
                 if op == "+":
@@ -416,7 +424,7 @@ def replay_arith(op):
             import random
             rnd = random.Random(17)
             for _ in range(4000):
-                ds = f"{rnd.randint(1900, 9000):04d}{rnd.randint(1, 12):02d}{rnd.randint(1, 28):02d}{rnd.randint(0, 23):02d}{rnd.randint(0, 59):02d}{rnd.randint(0, 59):02d}"
+                ds = f"{rnd.randint(1000, 9000):04d}{rnd.randint(1, 12):02d}{rnd.randint(1, 28):02d}{rnd.randint(0, 23):02d}{rnd.randint(0, 59):02d}{rnd.randint(0, 59):02d}"
                 n = rnd.choice([1, 7, 1000, 36525, -1, -400])
                 progs.append((f"string((date('{ds}') + {n}) - date('{ds}'))", f"'{n}'"))
         for src, exp in progs:
@@ -432,7 +440,7 @@ def replay_arith(op):
 
 # ----------------------------------------------------------------------------- bounded stand-ins
 
-BOUNDARY_DAYS = [(1900, 1, 1), (1969, 12, 31), (1970, 1, 1), (1970, 1, 2), (1999, 12, 31), (2000, 2, 29),
+BOUNDARY_DAYS = [(1, 1, 1), (1, 12, 31), (1582, 10, 15), (1800, 1, 1), (1899, 12, 29), (1899, 12, 30), (1899, 12, 31), (1900, 1, 1), (1969, 12, 31), (1970, 1, 1), (1970, 1, 2), (1999, 12, 31), (2000, 2, 29),
                  (2020, 12, 31), (2021, 1, 1), (2100, 2, 28), (2100, 3, 1), (9999, 12, 30), (9999, 12, 31)]
 
 
@@ -459,7 +467,7 @@ def bounded(tier, seed):
                               "observed": str(back), "expected": str(dt)})
     rnd = random.Random(seed)
     nrand = 20000 if tier == "thorough" else 2000
-    lo, hi = datetime.date(1900, 1, 1).toordinal(), datetime.date(9999, 12, 31).toordinal()
+    lo, hi = datetime.date(1, 1, 1).toordinal(), datetime.date(9999, 12, 31).toordinal()
     for _ in range(nrand):
         dt = datetime.datetime.combine(datetime.date.fromordinal(rnd.randint(lo, hi)), datetime.time()) \
             + datetime.timedelta(seconds=rnd.randint(0, 86399))
@@ -467,7 +475,7 @@ def bounded(tier, seed):
         try:
             oa = date.to_oa_date(dt)
             back = date.to_date(oa)
-            okn = int(oa) == dt.toordinal() - datetime.date(1899, 12, 30).toordinal()
+            okn = __import__("math").floor(oa) == dt.toordinal() - datetime.date(1899, 12, 30).toordinal()
         except Exception as e:
             back, okn = repr(e), False
         if (back != dt or not okn) and len(fails) < 5:
